@@ -1,4 +1,5 @@
 import GeomV.C13.Meet
+import GeomV.C13.SimpleCol
 import GeomV.C13.Ties
 /-!
 # C13 — `segsMeet` and `findIntersection` for ALL inputs; rings
@@ -112,5 +113,39 @@ theorem C13_ring_simplicity_not_preserved :
     simplifyPG [ring] 6 = .ok [out] ∧ simplifyLS ring 6 = .ok out ∧
     Spec.Valid ring [0, 1, 2, 3, 5] out 6 0 = true ∧ Spec.SimpleRing out = false := by
   decide +kernel
+
+/-! ## simplicity beyond general position -/
+
+/-- **Simplicity is preserved whenever collinear vertices occur in their order along the line**
+(`Spec.ColOrdered`: vertices pairwise distinct; if `c[i], c[j], c[k]`, `i < j < k`, are collinear then
+`c[j]` lies strictly between the other two) — for every tolerance, every length and every list of
+obstacle curves.  This contains `C13_simple` (`C13_genPos_imp_colOrdered`) and adds every curve with
+straight runs through any number of vertices (grid lines, densified segments).  Why it holds:
+off a common line `findIntersection` is an exact segments-meet test (`C13_findIntersection_meets`),
+so T-junctions and touching are seen; on a common line its answer is unreliable
+(`C13_findIntersection_collinear`) but the order of the vertices makes chord and segment disjoint
+whatever it answers, and no new hinge folds back.  The hypothesis is tight in the sense of the
+`example` below: one collinear triple out of order and the answer folds back over itself. -/
+theorem C13_simple_collinear_ordered {c : Path} {others : List Path} {tol : Rat} {out : Path}
+    (hS : Spec.Simple c = true) (hO : Spec.ColOrdered c = true) (h : simplifyCurve c others tol = .ok out) :
+    Spec.Simple out = true := by
+  obtain ⟨out', is, e, g⟩ := simplifyCurve_ok c others tol
+  rw [h] at e; cases e
+  exact simple_of_good' hS hO g
+
+/-- general position is a special case of `Spec.ColOrdered` -/
+theorem C13_genPos_imp_colOrdered (c : Path) (h : Spec.GenPos c = true) : Spec.ColOrdered c = true :=
+  colOrdered_of_genPos c h
+
+/-- non-vacuity: a simple curve with straight runs (not in general position) that is simplified -/
+example : Spec.Simple [⟨0, 0⟩, ⟨1, 0⟩, ⟨2, 0⟩, ⟨3, 0⟩, ⟨3, 1⟩, ⟨3, 2⟩, ⟨3, 3⟩, ⟨0, 3⟩] = true ∧
+    Spec.GenPos [⟨0, 0⟩, ⟨1, 0⟩, ⟨2, 0⟩, ⟨3, 0⟩, ⟨3, 1⟩, ⟨3, 2⟩, ⟨3, 3⟩, ⟨0, 3⟩] = false ∧
+    Spec.ColOrdered [⟨0, 0⟩, ⟨1, 0⟩, ⟨2, 0⟩, ⟨3, 0⟩, ⟨3, 1⟩, ⟨3, 2⟩, ⟨3, 3⟩, ⟨0, 3⟩] = true ∧
+    simplifyLS [⟨0, 0⟩, ⟨1, 0⟩, ⟨2, 0⟩, ⟨3, 0⟩, ⟨3, 1⟩, ⟨3, 2⟩, ⟨3, 3⟩, ⟨0, 3⟩] (1 / 2) =
+      .ok [⟨0, 0⟩, ⟨3, 0⟩, ⟨3, 3⟩, ⟨0, 3⟩] := by decide +kernel
+/-- tightness: the known counter-example has exactly one collinear triple out of order -/
+example : Spec.Simple [⟨0, 0⟩, ⟨2, 1⟩, ⟨4, 0⟩, ⟨2, 0⟩] = true ∧
+    Spec.ColOrdered [⟨0, 0⟩, ⟨2, 1⟩, ⟨4, 0⟩, ⟨2, 0⟩] = false ∧
+    Spec.orderedTriple ⟨0, 0⟩ ⟨4, 0⟩ ⟨2, 0⟩ = false := by decide +kernel
 
 end GeomV.C13
